@@ -56,6 +56,9 @@ def _job(args):
     import signal
     from pyvc import contract as _cm
     _cm.KNOWN_OPEN = {k['obligation'] for k in load_known() if k.get('status', 'open') == 'open'}
+    if not _cm.BASELINE_NAMES:
+        for _l in load_baseline().values():
+            _cm.BASELINE_NAMES.update(_l)
 
     class Budget(BaseException):
         pass
